@@ -1,4 +1,5 @@
-/* sumtypes: optional<int>, optional<long>, variant<int,char,long>, variant<monostate,int>, expected<int,char>, unexpected<char>
+/* sumtypes: optional<int>, optional<long>, variant<int,char,long>, variant<monostate,int>, expected<int,char>, unexpected<char>;
+ * repeated alternative types (variant<int,int>, variant<unsigned,float,unsigned>, expected<int,int>), variant<int>, optional<bool>, optional<P2>
  * against the std semantics tables ([optional.*], [variant.*], [expected.object.*]) — C07; contract checks of the unchecked accessors — C05.
  * Every harness starts from ARBITRARY well-formed objects (all bytes symbolic, constrained by wf only), so every (from-state, to-state)
  * pair of indices is inside the symbolic domain.
@@ -13,6 +14,15 @@ typedef struct etl_expected_long_char EL;
 typedef struct etl_unexpected_char UX;
 typedef struct etl_unexpected_int UI;
 typedef struct vf_log_t LOG;
+typedef struct etl_variant_int_int VD;
+typedef struct etl_variant_unsignedint_float_unsignedint VU;
+typedef struct etl_variant_int V1;
+typedef struct etl_expected_int_int EI;
+typedef struct etl_expected_long_int ELI;
+typedef struct etl_optional_bool OB;
+typedef struct vf_P2 P2;
+typedef struct etl_optional_vf_P2 OP;
+typedef struct vf_flog_t FLOG;
 typedef struct { unsigned idx; long val; } view_t;
 
 #define O_IDX(o) ((o)._var._index)
@@ -28,6 +38,10 @@ typedef struct { unsigned idx; long val; } view_t;
 #define E_VAL(e) ((e)._u._union.head)
 #define E_ERR(e) ((e)._u._union.tail.head)
 #define E_WF(e) (E_IDX(e) <= 1)
+#define VD_WF(v) (V_IDX(v) <= 1)
+#define VU_WF(v) (V_IDX(v) <= 2)
+#define V1_WF(v) (V_IDX(v) == 0)
+#define OB_WF(o) (O_IDX(o) <= 1 && *(const unsigned char *)&O_VAL(o) <= 1)   /* a _Bool object holds 0 or 1 */
 
 static view_t mk(unsigned idx, long val) { view_t w; w.idx = idx; w.val = val; return w; }
 static view_t oi_view(const OI *o) { return mk(O_IDX(*o), O_IDX(*o) == 1 ? (long)O_VAL(*o) : 0L); }
@@ -36,24 +50,49 @@ static view_t vt_view(const VT *v) { return mk(V_IDX(*v), V_IDX(*v) == 0 ? (long
 static view_t vm_view(const VM *v) { return mk(V_IDX(*v), V_IDX(*v) == 1 ? (long)V_A1(*v) : 0L); }
 static view_t ex_view(const EX *e) { return mk(E_IDX(*e), E_IDX(*e) == 0 ? (long)E_VAL(*e) : (long)E_ERR(*e)); }
 static view_t el_view(const EL *e) { return mk(E_IDX(*e), E_IDX(*e) == 0 ? E_VAL(*e) : (long)E_ERR(*e)); }
+/* repeated alternative types: the view is (index, value) all the same - two alternatives of the same type are told apart by the index only.
+ * floats are viewed as their bit pattern (copies preserve NaN payloads and the sign of zero) */
+static unsigned fbits(float f) { union { float f; unsigned u; } c; c.f = f; return c.u; }
+static float bits2f(unsigned u) { union { float f; unsigned u; } c; c.u = u; return c.f; }
+static view_t vd_view(const VD *v) { return mk(V_IDX(*v), V_IDX(*v) == 0 ? (long)V_A0(*v) : (long)V_A1(*v)); }
+static view_t vu_view(const VU *v) { return mk(V_IDX(*v), V_IDX(*v) == 0 ? (long)V_A0(*v) : (V_IDX(*v) == 1 ? (long)fbits(V_A1(*v)) : (long)V_A2(*v))); }
+static view_t v1_view(const V1 *v) { return mk(V_IDX(*v), (long)V_A0(*v)); }
+static view_t ei_view(const EI *e) { return mk(E_IDX(*e), E_IDX(*e) == 0 ? (long)E_VAL(*e) : (long)E_ERR(*e)); }
+static view_t eli_view(const ELI *e) { return mk(E_IDX(*e), E_IDX(*e) == 0 ? E_VAL(*e) : (long)E_ERR(*e)); }
+static view_t ob_view(const OB *o) { return mk(O_IDX(*o), O_IDX(*o) == 1 ? (long)O_VAL(*o) : 0L); }
+static view_t op_view(const OP *o) { return mk(O_IDX(*o), O_IDX(*o) == 1 ? (long)O_VAL(*o).a * 65536L + (long)(unsigned short)O_VAL(*o).b : 0L); }
+static view_t p2_view(const P2 *p) { return mk(1, (long)p->a * 65536L + (long)(unsigned short)p->b); }
 static _Bool view_eq(view_t a, view_t b) { return a.idx == b.idx && a.val == b.val; }
 /* reference ordering of [optional.relops] / [variant.relops]: by index, then by the value of the common alternative */
 static int sp_cmp(view_t a, view_t b) { if (a.idx != b.idx) return a.idx < b.idx ? -1 : 1; return a.val < b.val ? -1 : (a.val > b.val ? 1 : 0); }
+/* the six relations as a bit mask (== 1, != 2, < 4, <= 8, > 16, >= 32): of a total order with three-way result c; of two floats (partial order) */
+static unsigned sp_rel6(int c) { return c < 0 ? (2U | 4U | 8U) : (c > 0 ? (2U | 16U | 32U) : (1U | 8U | 32U)); }
+static unsigned sp_rel6_f(float a, float b) { return (a == b ? 1U : 0U) | (a != b ? 2U : 0U) | (a < b ? 4U : 0U) | (a <= b ? 8U : 0U) | (a > b ? 16U : 0U) | (a >= b ? 32U : 0U); }
 
 /* snapshot for C05: a violated precondition must be detected before the object is touched */
-enum { K_OI, K_VT, K_EX };
+enum { K_OI, K_VT, K_EX, K_VD, K_EI };
 view_t vf_snap; int vf_snap_kind; void *vf_snap_of;
-static view_t view_kind(int k, void *p) { return k == K_OI ? oi_view((const OI *)p) : (k == K_VT ? vt_view((const VT *)p) : ex_view((const EX *)p)); }
+static view_t view_kind(int k, void *p) { return k == K_OI ? oi_view((const OI *)p) : (k == K_VT ? vt_view((const VT *)p) : (k == K_EX ? ex_view((const EX *)p) : (k == K_VD ? vd_view((const VD *)p) : ei_view((const EI *)p)))); }
 #define VF_HANDLER_CHECK() do { if (vf_snap_of) __CPROVER_assert(view_eq(view_kind(vf_snap_kind, vf_snap_of), vf_snap), "C05: the object is unmodified when the assertion handler runs"); } while (0)
 #define EXPECT_VIOLATION(kind, v) do { vf_expect_handler = 1; vf_snap_kind = (kind); vf_snap_of = &(v); vf_snap = view_kind((kind), &(v)); } while (0)
 #include "vf_handler.h"
 
-#define ARB_OI(o) VF_INPUT(OI, o); __CPROVER_assume(O_WF(o))
-#define ARB_OL(o) VF_INPUT(OL, o); __CPROVER_assume(O_WF(o))
-#define ARB_VT(v) VF_INPUT(VT, v); __CPROVER_assume(VT_WF(v))
-#define ARB_VM(v) VF_INPUT(VM, v); __CPROVER_assume(VM_WF(v))
-#define ARB_EX(e) VF_INPUT(EX, e); __CPROVER_assume(E_WF(e))
+/* arbitrary well-formed objects are assembled from SCALAR inputs (index, bytes of the widest alternative): the trace of a symbolic union names
+ * one member only, which loses the other alternatives in the native replay. Padding and the bytes outside the active alternative stay arbitrary. */
+#define ARB_OI(o) VF_INPUT(unsigned char, o##_i); VF_INPUT(int, o##_w); OI o; __CPROVER_assume(o##_i <= 1); O_IDX(o) = o##_i; O_VAL(o) = o##_w
+#define ARB_OL(o) VF_INPUT(unsigned char, o##_i); VF_INPUT(long, o##_w); OL o; __CPROVER_assume(o##_i <= 1); O_IDX(o) = o##_i; O_VAL(o) = o##_w
+#define ARB_VT(v) VF_INPUT(unsigned char, v##_i); VF_INPUT(long, v##_w); VT v; __CPROVER_assume(v##_i <= 2); V_IDX(v) = v##_i; V_A2(v) = v##_w   /* int and char alternatives: the low bytes */
+#define ARB_VM(v) VF_INPUT(unsigned char, v##_i); VF_INPUT(int, v##_w); VM v; __CPROVER_assume(v##_i <= 1); V_IDX(v) = v##_i; V_A1(v) = v##_w
+#define ARB_EX(e) VF_INPUT(unsigned char, e##_i); VF_INPUT(int, e##_w); EX e; __CPROVER_assume(e##_i <= 1); E_IDX(e) = e##_i; E_VAL(e) = e##_w   /* char error: the low byte */
 #define ARB_LOG(l) VF_INPUT(LOG, l); l.calls = 0
+#define ARB_VD(v) VF_INPUT(unsigned char, v##_i); VF_INPUT(int, v##_w); VD v; __CPROVER_assume(v##_i <= 1); V_IDX(v) = v##_i; V_A0(v) = v##_w
+#define ARB_VU(v) VF_INPUT(unsigned char, v##_i); VF_INPUT(unsigned, v##_w); VU v; __CPROVER_assume(v##_i <= 2); V_IDX(v) = v##_i; V_A0(v) = v##_w   /* all three alternatives are 4 bytes at offset 0 */
+#define ARB_V1(v) VF_INPUT(int, v##_w); V1 v; V_IDX(v) = 0; V_A0(v) = v##_w
+#define ARB_EI(e) VF_INPUT(unsigned char, e##_i); VF_INPUT(int, e##_w); EI e; __CPROVER_assume(e##_i <= 1); E_IDX(e) = e##_i; E_VAL(e) = e##_w
+#define ARB_OB(o) VF_INPUT(unsigned char, o##_i); VF_INPUT_BOOL(o##_v); OB o; __CPROVER_assume(o##_i <= 1); O_IDX(o) = o##_i; O_VAL(o) = o##_v
+#define ARB_OP(o) VF_INPUT(unsigned char, o##_i); VF_INPUT(P2, o##_v); OP o; __CPROVER_assume(o##_i <= 1); O_IDX(o) = o##_i; O_VAL(o) = o##_v
+#define ARB_FLOG(l) VF_INPUT(FLOG, l); l.calls = 0
+#define ARB_FLOAT(f) VF_INPUT(unsigned, f##_bits); float f = bits2f(f##_bits)   /* every bit pattern: NaNs, infinities, signed zeros */
 #define REL6(pfx, A, B, c, what) VF_ASSERT(pfx##_eq(A, B) == ((c) == 0) && pfx##_ne(A, B) == ((c) != 0) && pfx##_lt(A, B) == ((c) < 0) && pfx##_le(A, B) == ((c) <= 0) && pfx##_gt(A, B) == ((c) > 0) && pfx##_ge(A, B) == ((c) >= 0), what)
 
 /* ======================================================================================================= optional */
@@ -316,6 +355,247 @@ void h_unexpected(void) { VF_INPUT(UX, a); VF_INPUT(UX, b); VF_INPUT(UX, t); VF_
   else { ui_ctor(&ui, c); VF_ASSERT(ui._unex == (int)c, "unexpected<int>(char)"); }
   VF_REACH(); }
 
+/* ======================================================================================================= variant<int,int>: a REPEATED alternative type */
+/* [variant.*] is written in terms of the index: two alternatives of the same type are different alternatives. Reachable through the index-based API only. */
+/*@GROUP name=vard_ctor props=C07,C02,C05 kind=F@*/
+void h_vard_ctor(void) { VF_INPUT(VD, v); VF_INPUT(unsigned char, which); VF_INPUT(int, x); VF_INPUT(short, s); view_t e;
+  if (which == 0) { vd_default(&v); e = mk(0, 0); } else if (which == 1) { vd_inplace_0(&v, x); e = mk(0, x); } else if (which == 2) { vd_inplace_1(&v, &x); e = mk(1, x); } else { vd_inplace_1_short(&v, s); e = mk(1, s); }
+  VF_ASSERT(VD_WF(v) && view_eq(vd_view(&v), e), "variant<int,int>(): value-initialised alternative 0; variant(in_place_index<I>, x): alternative I (not 'the int alternative') with the converted value");
+  VF_ASSERT(vd_index(&v) == e.idx, "index() after construction"); VF_REACH(); }
+
+/*@GROUP name=vard_copy_move props=C07,C02,C05 kind=F@*/
+void h_vard_copy_move(void) { ARB_VD(s); VF_INPUT(VD, t); VF_INPUT(unsigned char, which); view_t os = vd_view(&s); VD *r = &t;
+  if (which == 0) vd_copy_ctor(&t, &s); else if (which == 1) vd_move_ctor(&t, &s);
+  else if (which == 2) { __CPROVER_assume(VD_WF(t)); r = vd_copy_assign(&t, &s); } else if (which == 3) { __CPROVER_assume(VD_WF(t)); r = vd_move_assign(&t, &s); }
+  else if (which == 4) { r = vd_copy_assign(&s, &s); t = s; } else { r = vd_move_assign(&s, &s); t = s; }
+  VF_ASSERT(VD_WF(t) && view_eq(vd_view(&t), os), "variant<int,int> copy/move construction and assignment for all four (index,index) pairs: the target has the source's INDEX and value");
+  VF_ASSERT(r == (which >= 4 ? &s : &t), "assignment returns *this");
+  VF_ASSERT(VD_WF(s) && view_eq(vd_view(&s), os), "copy / move of trivially copyable alternatives / self-assignment leave the source view unchanged"); VF_REACH(); }
+
+/*@GROUP name=vard_modifiers props=C07,C02,C05 kind=F@*/
+void h_vard_modifiers(void) { ARB_VD(a); ARB_VD(b); VF_INPUT(unsigned char, which); VF_INPUT(int, x); VF_INPUT(short, s); view_t oa = vd_view(&a), ob = vd_view(&b);
+  if (which == 0) { int *p = vd_emplace_0(&a, &x); VF_ASSERT(p == &V_A0(a) && VD_WF(a) && view_eq(vd_view(&a), mk(0, x)), "emplace<0> from either index: holds alternative 0 with the value, returns a reference to it"); }
+  else if (which == 1) { int *p = vd_emplace_1(&a, &x); VF_ASSERT(p == &V_A1(a) && VD_WF(a) && view_eq(vd_view(&a), mk(1, x)), "emplace<1> from either index: holds alternative 1 with the value, returns a reference to it"); }
+  else if (which == 2) { int *p = vd_emplace_1_short(&a, s); VF_ASSERT(p == &V_A1(a) && VD_WF(a) && view_eq(vd_view(&a), mk(1, s)), "emplace<1>(short): alternative 1 with the converted value"); }
+  else if (which == 3) { vd_swap_free(&a, &b); VF_ASSERT(VD_WF(a) && VD_WF(b) && view_eq(vd_view(&a), ob) && view_eq(vd_view(&b), oa), "swap exchanges index AND value for all four index pairs"); }
+  else { vd_swap_free(&a, &a); VF_ASSERT(VD_WF(a) && view_eq(vd_view(&a), oa), "self-swap keeps the view"); }
+  VF_REACH(); }
+
+/*@GROUP name=vard_observers props=C07,C02,C05 kind=F@*/
+void h_vard_observers(void) { ARB_VD(v); view_t o = vd_view(&v); unsigned i = o.idx; int *p0 = i == 0 ? &V_A0(v) : (int *)0; int *p1 = i == 1 ? &V_A1(v) : (int *)0;
+  VF_ASSERT(vd_index(&v) == i, "index() is the active index");
+  VF_ASSERT(vd_get_if_0(&v) == p0 && vd_get_if_1(&v) == p1 && vd_cget_if_0(&v) == p0 && vd_cget_if_1(&v) == p1, "get_if<I>: non-null iff I is the active INDEX (get_if<0> is null for a variant holding the other int)");
+  VF_ASSERT(vd_get_if_0((VD *)0) == (int *)0 && vd_cget_if_1((VD *)0) == (int *)0, "get_if(nullptr) is null");
+  if (i == 0) VF_ASSERT(vd_uget_0(&v) == p0 && vd_cuget_0(&v) == p0 && vd_uget_rv_0(&v) == p0 && vd_sub_0(&v) == p0 && vd_csub_0(&v) == p0 && *vd_cuget_0(&v) == (int)o.val, "unchecked_get<0> / operator[](index_v<0>) refer to the active alternative");
+  if (i == 1) VF_ASSERT(vd_uget_1(&v) == p1 && vd_cuget_1(&v) == p1 && vd_cuget_rv_1(&v) == p1 && vd_sub_1(&v) == p1 && vd_csub_1(&v) == p1 && *vd_cuget_1(&v) == (int)o.val, "unchecked_get<1> / operator[](index_v<1>) refer to the active alternative");
+  VF_ASSERT(view_eq(vd_view(&v), o), "observers do not modify the object"); VF_REACH(); }
+
+/*@GROUP name=vard_rel props=C07,C02,C05 kind=F@*/
+void h_vard_rel(void) { ARB_VD(a); ARB_VD(b); int c = sp_cmp(vd_view(&a), vd_view(&b));
+  VF_ASSERT(vd_rel6(&a, &b) == sp_rel6(c), "variant<int,int> ==,!=,<,<=,>,>= for all four index pairs: different INDICES are unequal and ordered by index even when the values are equal; same index compares the values");
+  VF_REACH(); }
+
+/*@GROUP name=vard_visit props=C07,C02,C05 kind=F@*/
+void h_vard_visit(void) { ARB_VD(a); ARB_VD(b); ARB_FLOG(lg); VF_INPUT(unsigned char, which); view_t oa = vd_view(&a), ob = vd_view(&b);
+  if (which == 0 || which == 1) { long r = which == 0 ? vd_visit(&a, &lg) : vd_visit_rv(&a, &lg);
+    VF_ASSERT(lg.calls == 1 && lg.which == 1 && lg.arg == oa.val && r == 3L * oa.val + 1L, "visit: the int overload is called once with the value of the ACTIVE alternative (either index), result returned unchanged"); VF_ASSERT(view_eq(vd_view(&a), oa), "visit (const) leaves the variant unchanged"); }
+  else if (which == 2) { int r = vd_visit_mut(&a, &lg); VF_ASSERT(r == 10 && lg.calls == 1 && lg.arg == oa.val && VD_WF(a) && view_eq(vd_view(&a), mk(oa.idx, (long)((int)oa.val ^ 0x5a5a))), "visit (mutable) hands over a reference to the active alternative; the index is unchanged"); }
+  else if (which == 3) { long r = vd_visit_with_index(&a, &lg); VF_ASSERT(lg.calls == 1 && (unsigned)lg.which == oa.idx && lg.which2 == 1 && lg.arg == oa.val && r == 40L + (long)oa.idx, "visit_with_index passes the active INDEX (0 or 1) and its value"); }
+  else if (which == 4) { long r = vd_visit2(&a, &b, &lg); VF_ASSERT(lg.calls == 1 && lg.which == 9 && lg.arg == oa.val && lg.arg2 == ob.val && r == 69L, "visit(f, a, b): f called once with the two active values for all four index pairs"); }
+  else { long r = vd_visit_with_index2(&a, &b, &lg); VF_ASSERT(lg.calls == 1 && lg.which == (int)(oa.idx * 8 + ob.idx) && lg.which2 == 9 && lg.arg == oa.val && lg.arg2 == ob.val && r == 50L + (long)(oa.idx * 8 + ob.idx), "visit_with_index(f, a, b): both active indices and values for all four index pairs"); }
+  VF_ASSERT((which == 2 || view_eq(vd_view(&a), oa)) && view_eq(vd_view(&b), ob), "visiting leaves the variants unchanged"); VF_REACH(); }
+
+/* ======================================================================================================= variant<unsigned,float,unsigned> */
+/*@GROUP name=varu_ctor_assign props=C07,C02,C05 kind=F@*/
+void h_varu_ctor_assign(void) { ARB_VU(s); VF_INPUT(VU, t); VF_INPUT(unsigned char, which); VF_INPUT(unsigned, u); ARB_FLOAT(f); view_t os = vu_view(&s), e; VU *r = &t;
+  if (which == 0) { vu_default(&t); e = mk(0, 0); } else if (which == 1) { vu_inplace_0(&t, u); e = mk(0, u); } else if (which == 2) { vu_inplace_1(&t, f); e = mk(1, f_bits); } else if (which == 3) { vu_inplace_2(&t, u); e = mk(2, u); }
+  else if (which == 4) { vu_inplace_t_float(&t, f); e = mk(1, f_bits); } else if (which == 5) { vu_copy_ctor(&t, &s); e = os; } else if (which == 6) { vu_move_ctor(&t, &s); e = os; }
+  else if (which == 7) { __CPROVER_assume(VU_WF(t)); r = vu_copy_assign(&t, &s); e = os; } else if (which == 8) { __CPROVER_assume(VU_WF(t)); r = vu_move_assign(&t, &s); e = os; }
+  else { r = vu_copy_assign(&s, &s); t = s; e = os; }
+  VF_ASSERT(VU_WF(t) && view_eq(vu_view(&t), e), "variant<unsigned,float,unsigned>: in_place_index<I> selects alternative I (0 and 2 are both unsigned), in_place_type<float> the unique float; copy/move construction and assignment for all nine index pairs give the source's index and value");
+  VF_ASSERT(vu_index(&t) == e.idx && r == (which >= 9 ? &s : &t), "index() after construction; assignment returns *this");
+  VF_ASSERT(VU_WF(s) && view_eq(vu_view(&s), os), "the source is unchanged"); VF_REACH(); }
+
+/*@GROUP name=varu_modifiers props=C07,C02,C05 kind=F@*/
+void h_varu_modifiers(void) { ARB_VU(a); ARB_VU(b); VF_INPUT(unsigned char, which); VF_INPUT(unsigned, u); ARB_FLOAT(f); view_t oa = vu_view(&a), ob = vu_view(&b);
+  if (which == 0) { unsigned *p = vu_emplace_0(&a, u); VF_ASSERT(p == &V_A0(a) && VU_WF(a) && view_eq(vu_view(&a), mk(0, u)), "emplace<0> from every index: alternative 0"); }
+  else if (which == 1) { float *p = vu_emplace_1(&a, f); VF_ASSERT(p == &V_A1(a) && VU_WF(a) && view_eq(vu_view(&a), mk(1, f_bits)), "emplace<1> from every index: the float alternative"); }
+  else if (which == 2) { unsigned *p = vu_emplace_2(&a, u); VF_ASSERT(p == &V_A2(a) && VU_WF(a) && view_eq(vu_view(&a), mk(2, u)), "emplace<2> from every index: alternative 2, not the first unsigned"); }
+  else if (which == 3) { float *p = vu_emplace_t_float(&a, f); VF_ASSERT(p == &V_A1(a) && VU_WF(a) && view_eq(vu_view(&a), mk(1, f_bits)), "emplace<float> (unique type): alternative 1"); }
+  else if (which == 4) { vu_swap_free(&a, &b); VF_ASSERT(VU_WF(a) && VU_WF(b) && view_eq(vu_view(&a), ob) && view_eq(vu_view(&b), oa), "swap exchanges index and value for all nine index pairs"); }
+  else { vu_swap_free(&b, &b); VF_ASSERT(VU_WF(b) && view_eq(vu_view(&b), ob), "self-swap keeps the view"); }
+  VF_REACH(); }
+
+/*@GROUP name=varu_observers props=C07,C02,C05 kind=F@*/
+void h_varu_observers(void) { ARB_VU(v); view_t o = vu_view(&v); unsigned i = o.idx; unsigned *p0 = i == 0 ? &V_A0(v) : (unsigned *)0; float *p1 = i == 1 ? &V_A1(v) : (float *)0; unsigned *p2 = i == 2 ? &V_A2(v) : (unsigned *)0;
+  VF_ASSERT(vu_index(&v) == i && vu_holds_float(&v) == (i == 1), "index / holds_alternative<float> (the unique alternative type) follow the active index");
+  VF_ASSERT(vu_get_if_0(&v) == p0 && vu_get_if_1(&v) == p1 && vu_get_if_2(&v) == p2 && vu_cget_if_0(&v) == p0 && vu_cget_if_1(&v) == p1 && vu_cget_if_2(&v) == p2, "get_if<I>: non-null iff I is the active INDEX (get_if<0> is null when the OTHER unsigned, index 2, is active and vice versa)");
+  VF_ASSERT(vu_get_if_float(&v) == p1 && vu_cget_if_float(&v) == p1 && vu_get_if_float((VU *)0) == (float *)0, "get_if<float>: the unique float alternative");
+  if (i == 0) VF_ASSERT(vu_uget_0(&v) == p0 && vu_csub_0(&v) == p0 && *vu_uget_0(&v) == (unsigned)o.val, "unchecked_get<0> / operator[]");
+  if (i == 1) VF_ASSERT(vu_uget_1(&v) == p1 && vu_csub_1(&v) == p1 && fbits(*vu_uget_1(&v)) == (unsigned)o.val, "unchecked_get<1> / operator[]");
+  if (i == 2) VF_ASSERT(vu_uget_2(&v) == p2 && vu_csub_2(&v) == p2 && *vu_uget_2(&v) == (unsigned)o.val, "unchecked_get<2> / operator[]");
+  VF_ASSERT(view_eq(vu_view(&v), o), "observers do not modify the object"); VF_REACH(); }
+
+/*@GROUP name=varu_rel props=C07,C02,C05 kind=F@*/
+void h_varu_rel(void) { ARB_VU(a); ARB_VU(b); view_t oa = vu_view(&a), ob = vu_view(&b);
+  unsigned e = oa.idx != ob.idx ? sp_rel6(oa.idx < ob.idx ? -1 : 1) : (oa.idx == 1 ? sp_rel6_f(V_A1(a), V_A1(b)) : sp_rel6(oa.val < ob.val ? -1 : (oa.val > ob.val ? 1 : 0)));
+  VF_ASSERT(vu_rel6(&a, &b) == e, "variant<unsigned,float,unsigned> ==,!=,<,<=,>,>= for all nine index pairs: index 0 and index 2 are DIFFERENT alternatives (unequal, 0 < 2) although both are unsigned; same index applies the operator to the values (float: partial order)");
+  VF_REACH(); }
+
+/*@GROUP name=varu_visit props=C07,C02,C05 kind=F@*/
+void h_varu_visit(void) { ARB_VU(a); ARB_VD(d); ARB_FLOG(lg); VF_INPUT(unsigned char, which); view_t oa = vu_view(&a), od = vd_view(&d); int ta = oa.idx == 1 ? 3 : 2;
+  _Bool arg_ok = 1;
+  if (which == 0) { long r = vu_visit(&a, &lg); VF_ASSERT(lg.calls == 1 && lg.which == ta && r == (oa.idx == 1 ? -2L : 7L + oa.val), "visit: the overload for the TYPE of the active alternative is called once (unsigned for index 0 and 2), result returned unchanged"); }
+  else if (which == 1) { int r = vu_visit_mut(&a, &lg); VF_ASSERT(lg.calls == 1 && lg.which == ta && r == (oa.idx == 1 ? 12 : 11) && VU_WF(a) && view_eq(vu_view(&a), mk(oa.idx, oa.idx == 1 ? 0x40200000L : (long)(unsigned)~(unsigned)oa.val)), "visit (mutable): reference to the active alternative, index unchanged"); }
+  else if (which == 2) { long r = vu_visit_with_index(&a, &lg); VF_ASSERT(lg.calls == 1 && (unsigned)lg.which == oa.idx && lg.which2 == ta && r == 40L + (long)oa.idx, "visit_with_index: the active INDEX (0, 1 or 2) with an alternative of the matching type"); }
+  else if (which == 3) { long r = vu_vd_visit(&a, &d, &lg); VF_ASSERT(lg.calls == 1 && lg.which == ta * 8 + 1 && lg.arg2 == od.val && r == 60L + ta * 8 + 1, "visit over variant<unsigned,float,unsigned> x variant<int,int>: once, with the pair of active alternatives, for all six index pairs"); }
+  else { long r = vu_vd_visit_with_index(&a, &d, &lg); VF_ASSERT(lg.calls == 1 && lg.which == (int)(oa.idx * 8 + od.idx) && lg.which2 == ta * 8 + 1 && lg.arg2 == od.val && r == 50L + (long)(oa.idx * 8 + od.idx), "visit_with_index over two variants with repeated types: both active indices"); }
+  arg_ok = oa.idx == 1 ? fbits(lg.farg) == (unsigned)oa.val : lg.arg == oa.val;
+  VF_ASSERT(arg_ok, "the visitor sees the value of the active alternative (floats bit-exact)");
+  VF_ASSERT((which == 1 || view_eq(vu_view(&a), oa)) && view_eq(vd_view(&d), od), "visiting leaves the variants unchanged"); VF_REACH(); }
+
+/* ======================================================================================================= variant<int>: a single alternative */
+/*@GROUP name=var1 props=C07,C02,C05 kind=F@*/
+void h_var1(void) { ARB_V1(a); ARB_V1(b); ARB_VD(d); VF_INPUT(V1, t); ARB_FLOG(lg); ARB_FLOG(l2); VF_INPUT(unsigned char, which); VF_INPUT(int, x); VF_INPUT(short, s); view_t oa = v1_view(&a), ob = v1_view(&b), od = vd_view(&d);
+  VF_ASSERT(v1_rel6(&a, &b) == sp_rel6(sp_cmp(oa, ob)), "variant<int> relational operators compare the values");
+  VF_ASSERT(v1_index(&a) == 0 && v1_holds_int(&a) == 1 && v1_get_if_0(&a) == &V_A0(a) && v1_cget_if_int(&a) == &V_A0(a) && v1_uget_0(&a) == &V_A0(a) && v1_csub_0(&a) == &V_A0(a) && v1_get_if_0((V1 *)0) == (int *)0, "index / holds_alternative / get_if / unchecked_get / operator[] on a one-alternative variant");
+  { long r = v1_visit(&a, &l2); VF_ASSERT(l2.calls == 1 && l2.which == 1 && l2.arg == oa.val && r == 3L * oa.val + 1L && view_eq(v1_view(&a), oa), "visit on variant<int> (size-1 shortcut)"); }
+  if (which == 0) { v1_default(&t); VF_ASSERT(V1_WF(t) && view_eq(v1_view(&t), mk(0, 0)), "variant<int>() value-initialises"); }
+  else if (which == 1) { v1_from_int(&t, &x); VF_ASSERT(V1_WF(t) && view_eq(v1_view(&t), mk(0, x)), "variant<int>(int)"); }
+  else if (which == 2) { v1_from_short(&t, s); VF_ASSERT(V1_WF(t) && view_eq(v1_view(&t), mk(0, s)), "variant<int>(short)"); }
+  else if (which == 3) { v1_inplace_0(&t, x); VF_ASSERT(V1_WF(t) && view_eq(v1_view(&t), mk(0, x)), "variant<int>(in_place_index<0>, x)"); }
+  else if (which == 4) { v1_inplace_t(&t, x); VF_ASSERT(V1_WF(t) && view_eq(v1_view(&t), mk(0, x)), "variant<int>(in_place_type<int>, x)"); }
+  else if (which == 5) { v1_copy_ctor(&t, &b); VF_ASSERT(V1_WF(t) && view_eq(v1_view(&t), ob) && view_eq(v1_view(&b), ob), "copy construction"); }
+  else if (which == 6) { v1_move_ctor(&t, &b); VF_ASSERT(V1_WF(t) && view_eq(v1_view(&t), ob), "move construction"); }
+  else if (which == 7) { V1 *p = v1_copy_assign(&a, &b); VF_ASSERT(p == &a && V1_WF(a) && view_eq(v1_view(&a), ob) && view_eq(v1_view(&b), ob), "copy assignment"); }
+  else if (which == 8) { V1 *p = v1_move_assign(&a, &b); VF_ASSERT(p == &a && V1_WF(a) && view_eq(v1_view(&a), ob), "move assignment"); }
+  else if (which == 9) { V1 *p = v1_assign_int(&a, &x); VF_ASSERT(p == &a && V1_WF(a) && view_eq(v1_view(&a), mk(0, x)), "v = int"); }
+  else if (which == 10) { int *p = v1_emplace_0(&a, &x); VF_ASSERT(p == &V_A0(a) && V1_WF(a) && view_eq(v1_view(&a), mk(0, x)), "emplace<0>"); }
+  else if (which == 11) { int *p = v1_emplace_t(&a, x); VF_ASSERT(p == &V_A0(a) && V1_WF(a) && view_eq(v1_view(&a), mk(0, x)), "emplace<int>"); }
+  else if (which == 12) { v1_swap_free(&a, &b); VF_ASSERT(V1_WF(a) && V1_WF(b) && view_eq(v1_view(&a), ob) && view_eq(v1_view(&b), oa), "swap"); }
+  else if (which == 13) { int r = v1_visit_mut(&a, &lg); VF_ASSERT(r == 10 && lg.calls == 1 && lg.arg == oa.val && V1_WF(a) && view_eq(v1_view(&a), mk(0, (long)((int)oa.val ^ 0x5a5a))), "visit (mutable) on variant<int>"); }
+  else if (which == 14) { long r = v1_visit_with_index(&a, &lg); VF_ASSERT(lg.calls == 1 && lg.which == 0 && lg.which2 == 1 && lg.arg == oa.val && r == 40L, "visit_with_index on variant<int>: index 0"); }
+  else if (which == 15) { long r = v1_visit2(&a, &b, &lg); VF_ASSERT(lg.calls == 1 && lg.which == 9 && lg.arg == oa.val && lg.arg2 == ob.val && r == 69L, "visit(f, a, b) on two one-alternative variants"); }
+  else { long r = v1_vd_visit_with_index(&a, &d, &lg); VF_ASSERT(lg.calls == 1 && lg.which == (int)od.idx && lg.which2 == 9 && lg.arg == oa.val && lg.arg2 == od.val && r == 50L + (long)od.idx, "visit_with_index over variant<int> x variant<int,int>"); }
+  VF_REACH(); }
+
+/* ======================================================================================================= expected<int,int>: T and E are the same type */
+/*@GROUP name=expi_state props=C07,C02,C05 kind=F@*/
+void h_expi_state(void) { ARB_EI(s); VF_INPUT(EI, t); VF_INPUT(unsigned char, which); VF_INPUT(int, x); view_t os = ei_view(&s), e; EI *r = &t;
+  if (which == 0) { ei_default(&t); e = mk(0, 0); } else if (which == 1) { ei_inplace(&t, x); e = mk(0, x); } else if (which == 2) { ei_unexpect(&t, x); e = mk(1, x); }
+  else if (which == 3) { ei_copy_ctor(&t, &s); e = os; } else if (which == 4) { ei_move_ctor(&t, &s); e = os; }
+  else if (which == 5) { __CPROVER_assume(E_WF(t)); r = ei_copy_assign(&t, &s); e = os; } else if (which == 6) { __CPROVER_assume(E_WF(t)); r = ei_move_assign(&t, &s); e = os; }
+  else if (which == 7) { r = ei_copy_assign(&s, &s); t = s; e = os; }
+  else if (which == 8) { __CPROVER_assume(E_WF(t)); int *p = ei_emplace(&t, &x); e = mk(0, x); VF_ASSERT(p == &E_VAL(t), "emplace returns a reference to the value"); }
+  else { __CPROVER_assume(E_WF(t)); view_t ot = ei_view(&t); ei_swap_free(&t, &s); VF_ASSERT(E_WF(s) && view_eq(ei_view(&s), ot), "swap: the other operand receives this view"); e = os; os = ot; }
+  VF_ASSERT(E_WF(t) && view_eq(ei_view(&t), e), "expected<int,int>: in_place constructs the VALUE, unexpect the ERROR although both are int; copy/move/assignment/swap carry the value-or-error state; emplace makes it a value");
+  VF_ASSERT(ei_has_value(&t) == (e.idx == 0) && r == (which == 7 ? &s : &t), "has_value afterwards; assignment returns *this");
+  VF_ASSERT(E_WF(s) && view_eq(ei_view(&s), os), "the source is unchanged (swap: exchanged)"); VF_REACH(); }
+
+/*@GROUP name=expi_observers props=C07,C02,C05 kind=F@*/
+void h_expi_observers(void) { ARB_EI(e); VF_INPUT(int, d); view_t v = ei_view(&e); _Bool hv = v.idx == 0;
+  VF_ASSERT(ei_has_value(&e) == hv && ei_bool(&e) == hv, "has_value / operator bool");
+  if (hv) VF_ASSERT(ei_arrow(&e) == &E_VAL(e) && ei_carrow(&e) == &E_VAL(e) && ei_deref(&e) == &E_VAL(e) && ei_cderef(&e) == &E_VAL(e) && *ei_cderef(&e) == (int)v.val, "operator-> / operator* refer to the value");
+  else VF_ASSERT(ei_error(&e) == &E_ERR(e) && ei_cerror(&e) == &E_ERR(e) && *ei_cerror(&e) == (int)v.val, "error() refers to the error");
+  VF_ASSERT(ei_value_or(&e, d) == (hv ? (int)v.val : d) && ei_value_or_rv(&e, d) == (hv ? (int)v.val : d), "value_or: the value if present, else the fallback - never the error, although it has the same type");
+  VF_ASSERT(view_eq(ei_view(&e), v), "observers do not modify the object"); VF_REACH(); }
+
+/*@GROUP name=expi_monadic props=C07,C02,C05 kind=F@*/
+void h_expi_monadic(void) { ARB_EI(e); VF_INPUT(ELI, r); VF_INPUT(EI, q); ARB_FLOG(lg); VF_INPUT(unsigned char, which); view_t v = ei_view(&e); _Bool hv = v.idx == 0;
+  if (which <= 1) { if (which == 0) ei_and_then(&r, &e, &lg); else ei_and_then_crv(&r, &e, &lg);
+    VF_ASSERT(lg.calls == (hv ? 1 : 0) && (!hv || lg.arg == v.val), "and_then calls f exactly once with the value iff has_value");
+    VF_ASSERT(E_WF(r) && view_eq(eli_view(&r), hv ? ((v.val & 1) == 0 ? mk(0, 3L * v.val + 1L) : mk(1, v.val - 1)) : mk(1, v.val)), "and_then returns f(*e) unchanged, or propagates the error AS AN ERROR into expected<long,int>"); }
+  else { if (which == 2) ei_or_else(&q, &e, &lg); else ei_or_else_c(&q, &e, &lg);
+    VF_ASSERT(lg.calls == (hv ? 0 : 1) && (hv || lg.arg == v.val), "or_else calls f exactly once with the error iff !has_value");
+    VF_ASSERT(E_WF(q) && view_eq(ei_view(&q), hv ? v : (v.val >= 0 ? mk(0, v.val / 2) : mk(1, v.val + 1))), "or_else propagates the value AS A VALUE, or returns f(error()) unchanged"); }
+  VF_ASSERT(view_eq(ei_view(&e), v), "monadic operations leave the object unchanged"); VF_REACH(); }
+
+/* ======================================================================================================= optional<bool>: value and engaged flag are both bool */
+/*@GROUP name=optb_state props=C07,C02,C05 kind=F@*/
+void h_optb_state(void) { ARB_OB(a); ARB_OB(b); VF_INPUT(OB, t); VF_INPUT(unsigned char, which); VF_INPUT_BOOL(x); view_t oa = ob_view(&a), ob = ob_view(&b);
+  if (which == 0) { ob_default(&t); VF_ASSERT(O_IDX(t) == 0, "optional<bool>() is disengaged"); }
+  else if (which == 1) { ob_value(&t, &x); VF_ASSERT(OB_WF(t) && view_eq(ob_view(&t), mk(1, x)), "optional<bool>(b) is ENGAGED for both true and false and holds b"); }
+  else if (which == 2) { ob_inplace(&t, x); VF_ASSERT(OB_WF(t) && view_eq(ob_view(&t), mk(1, x)), "optional<bool>(in_place, b)"); }
+  else if (which == 3) { ob_make(&t, x); VF_ASSERT(OB_WF(t) && view_eq(ob_view(&t), mk(1, x)), "make_optional(b)"); }
+  else if (which == 4) { ob_copy_ctor(&t, &b); VF_ASSERT(O_WF(t) && view_eq(ob_view(&t), ob) && view_eq(ob_view(&b), ob), "copy construction"); }
+  else if (which == 5) { OB *p = ob_copy_assign(&a, &b); VF_ASSERT(p == &a && O_WF(a) && view_eq(ob_view(&a), ob) && view_eq(ob_view(&b), ob), "copy assignment, all state pairs"); }
+  else if (which == 6) { OB *p = ob_assign_value(&a, &x); VF_ASSERT(p == &a && OB_WF(a) && view_eq(ob_view(&a), mk(1, x)), "o = b engages (also for b == false) and stores b"); }
+  else if (which == 7) { OB *p = ob_assign_nullopt(&a); VF_ASSERT(p == &a && view_eq(ob_view(&a), mk(0, 0)), "o = nullopt"); }
+  else if (which == 8) { _Bool *p = ob_emplace(&a, &x); VF_ASSERT(p == &O_VAL(a) && OB_WF(a) && view_eq(ob_view(&a), mk(1, x)), "emplace(b)"); }
+  else if (which == 9) { ob_reset(&a); VF_ASSERT(view_eq(ob_view(&a), mk(0, 0)), "reset"); }
+  else { ob_swap(&a, &b); VF_ASSERT(O_WF(a) && O_WF(b) && view_eq(ob_view(&a), ob) && view_eq(ob_view(&b), oa), "swap, all state pairs"); }
+  VF_REACH(); }
+
+/*@GROUP name=optb_observers props=C07,C02,C05 kind=F@*/
+void h_optb_observers(void) { ARB_OB(o); VF_INPUT(OI, r); VF_INPUT(OB, q); ARB_FLOG(lg); ARB_FLOG(l2); VF_INPUT_BOOL(d); VF_INPUT_BOOL(fv); VF_INPUT_BOOL(fe); view_t v = ob_view(&o); _Bool en = v.idx == 1;
+  VF_ASSERT(ob_has_value(&o) == en && ob_bool(&o) == en && ob_not(&o) == !en, "has_value / explicit operator bool / !o report the ENGAGED flag, not the contained bool (an engaged false is true)");
+  VF_ASSERT(ob_carrow(&o) == (en ? &O_VAL(o) : (_Bool *)0) && (!en || (ob_cderef(&o) == &O_VAL(o) && *ob_cderef(&o) == (_Bool)v.val)), "operator-> / operator* give the contained bool");
+  VF_ASSERT(ob_value_or(&o, d) == (en ? (_Bool)v.val : d) && ob_value_or_rv(&o, d) == (en ? (_Bool)v.val : d), "value_or: the contained bool if engaged (false stays false), else the default");
+  ob_and_then(&r, &o, &lg); VF_ASSERT(lg.calls == (en ? 1 : 0) && (!en || lg.arg == v.val) && O_WF(r) && view_eq(oi_view(&r), en && v.val ? mk(1, 11) : mk(0, 0)), "and_then calls f iff engaged (also for an engaged false) with the contained bool");
+  ob_or_else(&q, &o, &l2, fv, fe); VF_ASSERT(l2.calls == (en ? 0 : 1) && O_WF(q) && view_eq(ob_view(&q), en ? v : (fe ? mk(1, fv) : mk(0, 0))), "or_else calls f iff disengaged (not for an engaged false)");
+  VF_ASSERT(view_eq(ob_view(&o), v), "observers do not modify the object"); VF_REACH(); }
+
+/*@GROUP name=optb_rel props=C07,C02,C05 kind=F@*/
+void h_optb_rel(void) { ARB_OB(a); ARB_OB(b); VF_INPUT_BOOL(x); view_t oa = ob_view(&a), ob = ob_view(&b); _Bool en = oa.idx == 1;
+  VF_ASSERT(ob_rel6(&a, &b) == sp_rel6(sp_cmp(oa, ob)), "optional<bool> vs optional<bool>: empty < engaged false < engaged true");
+  VF_ASSERT(ob_rel6_v(&a, &x) == sp_rel6(sp_cmp(oa, mk(1, x))), "optional<bool> op bool compares the CONTAINED value with the bool (not the engaged flag): nullopt < false < true");
+  VF_ASSERT(v_rel6_ob(&x, &a) == sp_rel6(sp_cmp(mk(1, x), oa)), "bool op optional<bool>: mirrored table");
+  VF_ASSERT(ob_rel_null(&a) == (en ? (4U | 8U | 32U) : (1U | 2U)), "optional<bool> vs nullopt depends on the engaged flag only"); VF_REACH(); }
+
+/* ======================================================================================================= optional<P2>: trivially copyable, non-scalar value */
+/*@GROUP name=optp props=C07,C02,C05 kind=F@*/
+void h_optp(void) { ARB_OP(a); ARB_OP(b); VF_INPUT(OP, t); VF_INPUT(P2, x); VF_INPUT(unsigned char, which); view_t ob = op_view(&b), ox = p2_view(&x), oa = op_view(&a);
+  if (which == 0) { op_value(&t, &x); VF_ASSERT(O_WF(t) && view_eq(op_view(&t), ox) && op_has_value(&t), "optional<P2>(p)"); }
+  else if (which == 1) { OP *r = op_assign_value(&a, &x); VF_ASSERT(r == &a && O_WF(a) && view_eq(op_view(&a), ox), "o = p (lvalue) from both states"); }
+  else if (which == 2) { OP *r = op_assign_value_rv(&a, &x); VF_ASSERT(r == &a && O_WF(a) && view_eq(op_view(&a), ox), "o = move(p) from both states"); }
+  else if (which == 3) { OP *r = op_copy_assign(&a, &b); VF_ASSERT(r == &a && O_WF(a) && view_eq(op_view(&a), ob) && view_eq(op_view(&b), ob), "o = other, all state pairs"); }
+  else if (which == 4) { P2 *p = op_emplace(&a, &x); VF_ASSERT(p == &O_VAL(a) && O_WF(a) && view_eq(op_view(&a), ox), "emplace(p)"); }
+  else { __CPROVER_assume(O_IDX(a) == 1); OP *r = &a; /* the argument ALIASES the contained value: [optional.assign] assigns through, the value is preserved */
+    if (which == 5) r = op_assign_deref_self(&a); else if (which == 6) r = op_assign_deref_self_rv(&a); else if (which == 7) r = op_assign_arrow_self(&a); else if (which == 8) r = op_assign_value(&a, &O_VAL(a)); else if (which == 9) r = op_assign_value_rv(&a, &O_VAL(a));
+    else { P2 *p = op_emplace_deref_self(&a); VF_ASSERT(p == &O_VAL(a), "emplace returns a reference to the contained value"); }
+    VF_ASSERT(r == &a && O_WF(a) && view_eq(op_view(&a), oa), "o = *o / o = move(*o) / o = (P2 const&)*o / o.emplace(*o) keep the engaged state and the value"); }
+  VF_ASSERT(view_eq(p2_view(&x), ox), "the argument is unchanged"); VF_REACH(); }
+
+/* ======================================================================================================= self-referential arguments */
+/* the argument is (a reference to) the object operated on or to its active alternative; std: the value is preserved */
+/*@GROUP name=self_ref_opt props=C07,C02,C05 kind=F@*/
+void h_self_ref_opt(void) { ARB_OI(o); ARB_OL(l); ARB_OB(b); VF_INPUT(unsigned char, which); __CPROVER_assume(O_IDX(o) == 1 && O_IDX(l) == 1 && O_IDX(b) == 1); view_t vo = oi_view(&o), vl = ol_view(&l), vb = ob_view(&b);
+  if (which == 0) { OI *r = oi_assign_deref_self(&o); VF_ASSERT(r == &o, "o = *o returns *this"); } else if (which == 1) { OI *r = oi_assign_deref_self_rv(&o); VF_ASSERT(r == &o, "o = move(*o) returns *this"); }
+  else if (which == 2) { OI *r = oi_assign_moved_deref_self(&o); VF_ASSERT(r == &o, "o = *move(o) returns *this"); } else if (which == 3) { int *p = oi_emplace_deref_self(&o); VF_ASSERT(p == &O_VAL(o), "o.emplace(*o) returns the contained value"); }
+  else if (which == 4) { OI *r = oi_assign_value(&o, &O_VAL(o)); VF_ASSERT(r == &o, "o = (int const&)*o"); } else if (which == 5) { OL *r = ol_assign_deref_self(&l); VF_ASSERT(r == &l, "optional<long>: o = *o"); }
+  else if (which == 6) { OL *r = ol_assign_value(&l, &O_VAL(l)); VF_ASSERT(r == &l, "optional<long>: o = (long const&)*o"); } else if (which == 7) { OB *r = ob_assign_deref_self(&b); VF_ASSERT(r == &b, "optional<bool>: o = *o"); }
+  else if (which == 8) { OB *r = ob_assign_value(&b, &O_VAL(b)); VF_ASSERT(r == &b, "optional<bool>: o = (bool const&)*o"); } else if (which == 9) { _Bool *p = ob_emplace(&b, &O_VAL(b)); VF_ASSERT(p == &O_VAL(b), "optional<bool>: o.emplace(*o)"); }
+  else { int c = 0; VF_ASSERT(oi_eq_v(&o, &O_VAL(o)) == 1 && v_eq_oi(&O_VAL(o), &o) == 1 && oi_ne_v(&o, &O_VAL(o)) == 0 && oi_lt_v(&o, &O_VAL(o)) == 0 && v_lt_oi(&O_VAL(o), &o) == 0 && oi_le_v(&o, &O_VAL(o)) == 1 && oi_gt_v(&o, &O_VAL(o)) == 0 && oi_ge_v(&o, &O_VAL(o)) == 1 && oi_value_or(&o, O_VAL(o)) == (int)vo.val && c == 0, "an engaged optional compared with its own contained value: equal"); }
+  VF_ASSERT(O_WF(o) && O_WF(l) && OB_WF(b) && view_eq(oi_view(&o), vo) && view_eq(ol_view(&l), vl) && view_eq(ob_view(&b), vb), "value assignment / emplace from the optional's own contained value keeps engaged state and value"); VF_REACH(); }
+
+/*@GROUP name=self_ref_var props=C07,C02,C05 kind=F@*/
+void h_self_ref_var(void) { ARB_VT(v); ARB_VD(d); ARB_VM(m); ARB_V1(u); VF_INPUT(unsigned char, which); view_t ov = vt_view(&v), od = vd_view(&d), om = vm_view(&m), ou = v1_view(&u);
+  if (which == 0) { __CPROVER_assume(V_IDX(v) == 0); VT *r = vt_assign_get0_self(&v); VF_ASSERT(r == &v, "v = get<0>(v) returns *this"); }
+  else if (which == 1) { __CPROVER_assume(V_IDX(v) == 1); VT *r = vt_assign_get1_self(&v); VF_ASSERT(r == &v, "v = get<1>(v) returns *this"); }
+  else if (which == 2) { __CPROVER_assume(V_IDX(v) == 2); VT *r = vt_assign_get2_self(&v); VF_ASSERT(r == &v, "v = get<2>(v) returns *this"); }
+  else if (which == 3) { __CPROVER_assume(V_IDX(v) == 2); VT *r = vt_assign_get2_self_rv(&v); VF_ASSERT(r == &v, "v = get<2>(move(v)) returns *this"); }
+  else if (which == 4) { __CPROVER_assume(V_IDX(v) == 2); long *p = vt_emplace2_get2_self(&v); VF_ASSERT(p == &V_A2(v), "v.emplace<2>(get<2>(v))"); }
+  else if (which == 5) { __CPROVER_assume(V_IDX(v) == 1); char *p = vt_emplace_t_char_self(&v); VF_ASSERT(p == &V_A1(v), "v.emplace<char>(*get_if<char>(&v))"); }
+  else if (which == 6) { __CPROVER_assume(V_IDX(v) == 0); VT *r = vt_assign_int(&v, &V_A0(v)); VF_ASSERT(r == &v, "v = (int const&)get<0>(v)"); }
+  else if (which == 7) { __CPROVER_assume(V_IDX(d) == 1); int *p = vd_emplace1_get1_self(&d); VF_ASSERT(p == &V_A1(d), "variant<int,int>: v.emplace<1>(get<1>(v))"); }
+  else if (which == 8) { __CPROVER_assume(V_IDX(d) == 0); int *p = vd_emplace_0(&d, &V_A0(d)); VF_ASSERT(p == &V_A0(d), "variant<int,int>: v.emplace<0>(get<0>(v))"); }
+  else if (which == 9) { __CPROVER_assume(V_IDX(m) == 1); VM *r = vm_assign_get1_self(&m); VF_ASSERT(r == &m, "variant<monostate,int>: v = get<1>(v)"); }
+  else if (which == 10) { V1 *r = v1_assign_get0_self(&u); VF_ASSERT(r == &u, "variant<int>: v = get<0>(v)"); }
+  else if (which == 11) { V1 *r = v1_assign_int(&u, &V_A0(u)); VF_ASSERT(r == &u, "variant<int>: v = (int const&)get<0>(v)"); }
+  else if (which == 12) { int *p = v1_emplace_0(&u, &V_A0(u)); VF_ASSERT(p == &V_A0(u), "variant<int>: v.emplace<0>(get<0>(v))"); }
+  else if (which == 13) { vt_swap_self(&v); } else if (which == 14) { VT *r = vt_move_assign(&v, &v); VF_ASSERT(r == &v, "v = move(v) returns *this"); }
+  else { VM *r = vm_move_assign(&m, &m); VF_ASSERT(r == &m, "variant<monostate,int>: v = move(v)"); }
+  VF_ASSERT(VT_WF(v) && VD_WF(d) && VM_WF(m) && V1_WF(u) && view_eq(vt_view(&v), ov) && view_eq(vd_view(&d), od) && view_eq(vm_view(&m), om) && view_eq(v1_view(&u), ou), "assignment / emplace from the variant's own active alternative, self-swap and self-move-assignment keep index and value"); VF_REACH(); }
+
+/*@GROUP name=self_ref_exp props=C07,C02,C05 kind=F@*/
+void h_self_ref_exp(void) { ARB_EX(e); ARB_EI(i); VF_INPUT(unsigned char, which); view_t oe = ex_view(&e), oi = ei_view(&i);
+  if (which == 0) { __CPROVER_assume(E_IDX(e) == 0); int *p = ex_emplace_deref_self(&e); VF_ASSERT(p == &E_VAL(e), "e.emplace(*e) returns the value"); }
+  else if (which == 1) { __CPROVER_assume(E_IDX(i) == 0); int *p = ei_emplace_deref_self(&i); VF_ASSERT(p == &E_VAL(i), "expected<int,int>: e.emplace(*e)"); }
+  else if (which == 2) { __CPROVER_assume(E_IDX(i) == 0); int *p = ei_emplace(&i, &E_VAL(i)); VF_ASSERT(p == &E_VAL(i), "expected<int,int>: e.emplace((int const&)*e)"); }
+  else if (which == 3) { EX *r = ex_move_assign_self(&e); VF_ASSERT(r == &e, "e = move(e) returns *this"); }
+  else if (which == 4) { ex_swap_self(&e); } else { EI *r = ei_move_assign(&i, &i); VF_ASSERT(r == &i, "expected<int,int>: e = move(e)"); }
+  VF_ASSERT(E_WF(e) && E_WF(i) && view_eq(ex_view(&e), oe) && view_eq(ei_view(&i), oi), "emplace from the expected's own value, self-swap and self-move-assignment keep the value-or-error state"); VF_REACH(); }
+
 /* ======================================================================================================= C05: violated preconditions */
 /*@GROUP name=viol_opt props=C05,C02 kind=F@*/
 void h_viol_opt(void) { ARB_OI(o); VF_INPUT(unsigned char, op); __CPROVER_assume(O_IDX(o) == 0); EXPECT_VIOLATION(K_OI, o);
@@ -334,4 +614,16 @@ void h_viol_var(void) { ARB_VT(v); VF_INPUT(unsigned char, op); VF_INPUT(unsigne
   if (k == 0) { if (op == 0) vt_uget_0(&v); else if (op == 1) vt_cuget_0(&v); else if (op == 2) vt_uget_rv_0(&v); else if (op == 3) vt_cuget_rv_0(&v); else if (op == 4) vt_sub_0(&v); else if (op == 5) vt_csub_0(&v); else vt_sub_rv_0(&v); }
   else if (k == 1) { if (op == 0) vt_uget_1(&v); else if (op == 1) vt_cuget_1(&v); else if (op == 2) vt_uget_rv_1(&v); else if (op == 3) vt_cuget_rv_1(&v); else if (op == 4) vt_sub_1(&v); else if (op == 5) vt_csub_1(&v); else vt_csub_rv_1(&v); }
   else { if (op == 0) vt_uget_2(&v); else if (op == 1) vt_cuget_2(&v); else if (op == 2) vt_uget_rv_2(&v); else if (op == 3) vt_cuget_rv_2(&v); else if (op == 4) vt_sub_2(&v); else if (op == 5) vt_csub_2(&v); else vt_sub_rv_2(&v); }
+  VF_NORETURN_EXPECTED(); }
+
+/*@GROUP name=viol_vard props=C05,C02 kind=F@*/
+void h_viol_vard(void) { ARB_VD(v); VF_INPUT(unsigned char, op); VF_INPUT(unsigned char, k); __CPROVER_assume(k <= 1 && k != V_IDX(v) && op <= 4); EXPECT_VIOLATION(K_VD, v);
+  /* variant<int,int>: the OTHER int is not the active alternative - the contract is on the index, not on the type */
+  if (k == 0) { if (op == 0) vd_uget_0(&v); else if (op == 1) vd_cuget_0(&v); else if (op == 2) vd_uget_rv_0(&v); else if (op == 3) vd_sub_0(&v); else vd_csub_0(&v); }
+  else { if (op == 0) vd_uget_1(&v); else if (op == 1) vd_cuget_1(&v); else if (op == 2) vd_cuget_rv_1(&v); else if (op == 3) vd_sub_1(&v); else vd_csub_1(&v); }
+  VF_NORETURN_EXPECTED(); }
+
+/*@GROUP name=viol_expi props=C05,C02 kind=F@*/
+void h_viol_expi(void) { ARB_EI(e); VF_INPUT(unsigned char, op); __CPROVER_assume(op < 4 && E_IDX(e) == (op < 2 ? 1 : 0)); EXPECT_VIOLATION(K_EI, e);
+  if (op == 0) ei_deref(&e); else if (op == 1) ei_cderef(&e); else if (op == 2) ei_error(&e); else ei_cerror(&e);
   VF_NORETURN_EXPECTED(); }
